@@ -245,3 +245,12 @@ package console
 //@   trusted
 //@   modifies scr
 //@   ensures forall(cx, uint32, cy, uint32, cx >= 1 && cx <= scrW && cy >= 1 && cy <= scrH ==> scr[scrIdx(cx, cy)] == ite(cx >= clampOrg(x, scrW) && cx <= clipEnd(clampOrg(x, scrW), width, scrW) && cy >= clampOrg(y, scrH) && cy <= clipEnd(clampOrg(y, scrH), height, scrH), cellOf(32, fg, bg), old(scr)[scrIdx(cx, cy)]))
+
+// NewVesaFbConsole establishes the depth-dependent part of wfVesa: the byte width of a pixel
+// is (bpp+1)/8 - 1, 2, 2, 3, 4 for the depths 8, 15, 16, 24, 32 - and the geometry is taken over
+//@ func NewVesaFbConsole(width uint32, height uint32, bpp uint8, pitch uint32, colorInfo *multiboot.FramebufferRGBColorInfo, fbPhysAddr uintptr) (c *VesaFbConsole)
+//@   property C19
+//@   requires bpp <= 64
+//@   ensures made: c != nil && c.bpp == uint32(bpp) && c.bytesPerPixel == (uint32(bpp)+1)/8 && c.width == width && c.height == height && c.pitch == pitch && c.colorInfo == colorInfo && c.fbPhysAddr == fbPhysAddr
+//@   ensures depth15: bpp == 15 ==> c.bytesPerPixel == 2
+//@   ensures defaults: c.defaultFg == 7 && c.defaultBg == 0 && c.clearChar == 32 && c.font == nil && c.offsetY == 0
